@@ -26,7 +26,9 @@ def tasks(tier):
 
 
 def conformance(tier):
-    return [dict(name="native:c09", argv=["c09_rewrite.py", tier], violation_on_fail=True)]
+    # the rewrite must stay right over a history of registrations (what was rewritten for an earlier method set is not reused
+    # for a later one): scenarios 5 / 7 of the derivation-graph suite
+    return [dict(name="native:c09", argv=["c09_rewrite.py", tier], violation_on_fail=True), dict(name="native:c08", argv=["c08_graphs.py"], violation_on_fail=True)]
 
 
 def concretise(obname, detail, task_result, native):
